@@ -315,3 +315,114 @@ def ref_dispatch(b):
     if ai == 31:
         return dict(field="indef_break", argbytes=0, noarg=True)
     return ("error",)
+
+
+# ---------------------------------------------------------------------------
+# T-encoders
+
+ENC_INLINE = {"_cbor_encode_uint", "_cbor_encode_uint8", "_cbor_encode_uint16", "_cbor_encode_uint32",
+              "_cbor_encode_uint64", "_cbor_encode_byte"}
+
+
+def byte_of(t):
+    """t is the byte (X >> s) & 0xff of some value X: returns (X stripped of casts, s, min width seen) or None"""
+    if not (isinstance(t, tuple) and t[0] == "cast" and t[1] == "trunc" and t[2] == "i8"):
+        if isinstance(t, tuple) and t[0] == "c":
+            return ("const", t[1], 8)
+        return None
+    x = t[3]
+    s = 0
+    if isinstance(x, tuple) and x[0] == "op" and x[1] in ("lshr", "ashr") and x[4][0] == "c":
+        if x[1] == "ashr":
+            inner = x[3]
+            if not (isinstance(inner, tuple) and inner[0] == "cast" and inner[1] == "zext"):
+                return None  # arithmetic shift of a possibly negative value smears the sign
+        s = x[4][1]
+        width = int(x[2][1:])
+        x = x[3]
+    else:
+        width = 64
+    minw = width
+    while isinstance(x, tuple) and x[0] == "cast" and x[1] in ("trunc", "zext"):
+        tb = int(x[2][1:]) if x[2].startswith("i") and x[2][1:].isdigit() else 64
+        if x[1] == "trunc":
+            minw = min(minw, tb)
+        x = x[3]
+    if s + 8 > minw and not (isinstance(x, tuple) and x[0] == "c"):
+        # bits above minw were cut before the shift: the byte is zero/garbage unless the shift stays inside
+        return ("cut", x, s, minw)
+    return (x, s, minw)
+
+
+def encoder_paths(prog, eff, fname):
+    """all paths of a public encoder with the primitives inlined.
+    Each: dict(vlo, vhi, slo, shi, ret, stores={off: term}, path)"""
+    import paths as P
+    f = prog.fn(fname)
+    names = [p["name"] for p in f.params]
+    if "buffer" not in names or "buffer_size" not in names:
+        raise AnalysisBroken("%s: no buffer/buffer_size parameters" % fname)
+    bi, si = names.index("buffer"), names.index("buffer_size")
+    vi = 0 if bi != 0 else None
+    X = P.Executor(prog, eff, inline=ENC_INLINE)
+    out = []
+    for pa in X.run(fname):
+        st = pa.st
+        d = dict(path=pa, ret=pa.ret, bi=bi, si=si, vi=vi)
+        if vi is not None:
+            V = ("arg", vi)
+            d["vlo"], d["vhi"] = st.lo.get(V, 0), st.hi.get(V)
+        S = ("arg", si)
+        d["slo"], d["shi"] = st.lo.get(S, 0), st.hi.get(S, (1 << 64) - 1)
+        stores = {}
+        bad = []
+        for e in pa.events:
+            if e.kind == "store":
+                b, off = P.ptr_key(e.args[0])
+                if b == ("arg", bi):
+                    stores[off] = e.args[1]
+                elif isinstance(b, tuple) and b[0] == "idx" and P.ptr_key(b[1])[0] == ("arg", bi):
+                    bad.append(e)
+            elif e.kind == "call" and e.callee in ("memcpy", "memset", "memmove") or e.kind in ("memcpy", "memset"):
+                db = P.ptr_key(e.args[0])[0]
+                if db == ("arg", bi) or (isinstance(db, tuple) and db[0] == "idx"):
+                    bad.append(e)
+        d["stores"], d["irregular"] = stores, bad
+        out.append(d)
+    return out
+
+
+def loader_bytemap(prog, eff, fname):
+    """{byte offset j: left shift} of an integer loader, from its return term"""
+    import paths as P
+    X = P.Executor(prog, eff)
+    ps = X.run(fname)
+    if len(ps) != 1:
+        raise AnalysisBroken("loader %s is not straight-line" % fname)
+    t = ps[0].ret
+    m = {}
+
+    def walk(t, shift):
+        while isinstance(t, tuple) and t[0] == "cast":
+            if t[1] == "sext":
+                inner = t[3]
+                if not (isinstance(inner, tuple) and inner[0] == "cast" and inner[1] == "zext"):
+                    # sign extension of a raw byte would smear bits
+                    if isinstance(inner, tuple) and inner[0] == "ld":
+                        raise AnalysisBroken("loader %s sign-extends a raw byte" % fname)
+            t = t[3]
+        if isinstance(t, tuple) and t[0] == "op" and t[1] in ("add", "or"):
+            walk(t[3], shift)
+            walk(t[4], shift)
+            return
+        if isinstance(t, tuple) and t[0] == "op" and t[1] == "shl" and t[4][0] == "c":
+            walk(t[3], shift + t[4][1])
+            return
+        if isinstance(t, tuple) and t[0] == "ld" and t[1] == ("arg", 0):
+            if t[2] in m:
+                raise AnalysisBroken("loader %s uses byte %d twice" % (fname, t[2]))
+            m[t[2]] = shift
+            return
+        raise AnalysisBroken("loader %s: unrecognised term %r" % (fname, t))
+    walk(t, 0)
+    return m
